@@ -20,6 +20,7 @@ type zwObj struct {
 
 type zrObj struct {
 	asrc *arraySrc
+	tail int // bytes of the source (the Adler-32 trailer) that are consumed only by the Read that reports EOF
 	src Val
 	out *Array
 	pos int
@@ -198,6 +199,29 @@ func (m *Machine) zlibIntrinsic(name string, args []Val) (Val, bool) {
 		if ifc, ok := args[0].(Iface); !ok || !m.hasMethod(ifc, "ReadByte") {
 			unsupported("zlib.NewReader over a reader without ReadByte")
 		}
+		if ifc := args[0].(Iface); m.hasMethod(ifc, "Bytes") && m.hasMethod(ifc, "Next") {
+			// a *bytes.Buffer: decode from a copy of its unread bytes, consume
+			// everything but the 4-byte trailer now and the trailer when EOF is
+			// reported, which is when compress/zlib reads it (reftable derives the
+			// on-disk length of a log block from what was consumed)
+			rest := m.invoke(args[0], "Bytes").(Slice)
+			cp := newByteArray(rest.len)
+			copyRange(cp, 0, rest.arr, rest.off, rest.len)
+			src := &arraySrc{a: cp, n: rest.len}
+			z.asrc = src
+			e := z.fill(m)
+			z.asrc = nil
+			if e != nil {
+				m.invoke(args[0], "Next", goInt(src.pos))
+				return Tuple{nil, e}, true
+			}
+			z.tail = 4
+			if src.pos < 4 {
+				z.tail = src.pos
+			}
+			m.invoke(args[0], "Next", goInt(src.pos-z.tail))
+			return Tuple{Iface{nativeZRType, z}, nil}, true
+		}
 		if e := z.fill(m); e != nil {
 			return Tuple{nil, e}, true
 		}
@@ -227,16 +251,37 @@ func (m *Machine) hasMethod(ifc Iface, name string) bool {
 func (m *Machine) zrInvoke(z *zrObj, name string, args []Val) (Val, bool) {
 	switch name {
 	case "Read":
+		// compress/flate hands out its 32 KiB window when it is full or when the
+		// stream ends; EOF comes with the call that drains the final chunk unless
+		// the data ended exactly on a window boundary, in which case it takes one
+		// more call (which is also the one that reads the stream trailer)
 		dst := args[0].(Slice)
+		const window = 32768
+		eof := func() Val {
+			if z.tail > 0 && z.src != nil {
+				m.invoke(z.src, "Next", goInt(z.tail))
+				z.tail = 0
+			}
+			return m.ioErr("EOF")
+		}
 		if z.pos >= z.n {
-			return Tuple{goInt(0), m.ioErr("EOF")}, true
+			return Tuple{goInt(0), eof()}, true
+		}
+		if dst.len == 0 {
+			return Tuple{goInt(0), nil}, true
 		}
 		n := dst.len
 		if z.n-z.pos < n {
 			n = z.n - z.pos
 		}
+		if end := (z.pos/window + 1) * window; end-z.pos < n {
+			n = end - z.pos
+		}
 		copyRange(dst.arr, dst.off, z.out, z.pos, n)
 		z.pos += n
+		if z.pos == z.n && z.n%window != 0 {
+			return Tuple{goInt(n), eof()}, true
+		}
 		return Tuple{goInt(n), nil}, true
 	case "Close":
 		return nil, true
